@@ -33,7 +33,8 @@ theorem C09_spanning {ds : DSymData} (hv : ValidSet ds.dset) (hsize : 1 ≤ ds.s
     (spanningTree ds).length + 1 = ds.size ∧
     ∃ root, 1 ≤ root ∧ root ≤ ds.size ∧
       ∀ x, 1 ≤ x → x ≤ ds.size → TreeReach ds (spanningTree ds) root x := by
-  refine ⟨?_, spanningTree_spanning hv hsize hc⟩
+  obtain ⟨hlen, root, hr1, hr2, htree, _⟩ := spanningTree_spanning hv hsize hc
+  refine ⟨?_, hlen, root, hr1, hr2, htree⟩
   intro it hit
   obtain ⟨hn, _⟩ := spanningTree_itemOk hv it hit
   exact ⟨hn, spanningTree_ok hv it hit hn⟩
